@@ -132,8 +132,17 @@ func enc(st *state) encs {
 }
 
 type env struct {
-	g    *groups.G
-	init encs
+	g     *groups.G
+	init  encs
+	poolB bool   // second pool: p2 is the identity, p0 = p1 + identity, s1 a scalar zeroed in place after holding a value
+	s1was []byte // pool B: what s1 held before it was zeroed
+}
+
+func (e *env) label() string {
+	if e.poolB {
+		return e.g.Name + " [pool with identity and zeroed scalar]"
+	}
+	return e.g.Name
 }
 
 func (e *env) decP(b []byte) kyber.Point {
@@ -160,6 +169,10 @@ func (e *env) fresh() *state {
 	st.p[2] = e.decP(e.init.p[2])
 	st.s[0] = e.decS(e.init.s[0])
 	st.s[1] = e.decS(e.init.s[1])
+	if e.poolB {
+		st.s[1] = e.decS(e.s1was)
+		st.s[1].Sub(st.s[1], st.s[1]) // zero, in an object that held a full-size value
+	}
 	return st
 }
 
@@ -305,6 +318,7 @@ func Run(c *vf.Check) {
 	type job struct {
 		g  *groups.G
 		o1 int
+		b  bool
 	}
 	var jobs []job
 	envs := map[string]*env{}
@@ -327,23 +341,46 @@ func Run(c *vf.Check) {
 			}
 			envs[g.Name] = e
 			menus[g.Name] = menu(g)
+			// second pool
+			eb := &env{g: g, poolB: true, s1was: s1}
+			eb.init.p[1] = e.init.p[1]
+			eb.init.p[2] = fmod.Enc(g.Point().Null())
+			eb.init.p[0] = e.init.p[1]
+			eb.init.s[0] = s0
+			zb, _ := g.Scalar().Zero().MarshalBinary()
+			eb.init.s[1] = zb
+			if got := enc(eb.fresh()); !sameEnc(got, eb.init) {
+				x.Failf("C05/"+g.Name+"/setup", "fresh second pool does not encode to the initial encodings")
+				return
+			}
+			envs[g.Name+"#B"] = eb
 		})
 		if envs[g.Name] == nil {
 			continue
 		}
 		for i := range menus[g.Name] {
-			jobs = append(jobs, job{g, i})
+			jobs = append(jobs, job{g, i, false})
+		}
+		if envs[g.Name+"#B"] != nil {
+			for i := range menus[g.Name] {
+				jobs = append(jobs, job{g, i, true})
+			}
 		}
 	}
 	depth := 2
 	vf.Parallel(len(jobs), func(i int) {
 		j := jobs[i]
+		if j.b {
+			// second pool: depth 1, and second steps after first steps writing variable 0 (thorough: all on fast groups)
+			explore(c, envs[j.g.Name+"#B"], menus[j.g.Name], j.o1, depth, !c.Thorough() || expensive(j.g))
+			return
+		}
 		explore(c, envs[j.g.Name], menus[j.g.Name], j.o1, depth, !c.Thorough() && expensive(j.g))
 	})
 	for _, g := range gs {
 		c.Note(fmt.Sprintf("%s: menu=%d operations, depth=%d, second-step-reduced=%v", g.Name, len(menus[g.Name]), depth, !c.Thorough() && expensive(g)))
 	}
-	c.Finish("engine S (stateless, no state merging): every program of depth <= 2 over the operation menu {Add,Sub (27 aliasing patterns each), Neg, Set, Clone, Mul(s,p|nil), Null, Base, Pick, Embed; scalar Add,Sub,Mul,Div (8 patterns each), Neg, Inv, Set, Clone, Zero, One, SetInt64, SetBytes, Pick} on a pool of 3 points (one in non-normalised form) and 2 scalars, each program replayed from a fresh pool. "+
+	c.Finish("engine S (stateless, no state merging): every program of depth <= 2 over the operation menu {Add,Sub (27 aliasing patterns each), Neg, Set, Clone, Mul(s,p|nil), Null, Base, Pick, Embed; scalar Add,Sub,Mul,Div (8 patterns each), Neg, Inv, Set, Clone, Zero, One, SetInt64, SetBytes, Pick} on a pool of 3 points (one in non-normalised form) and 2 scalars, each program replayed from a fresh pool; and on a second pool (p2 the identity, p0 = p1 + identity, s1 a scalar zeroed in place after holding a full-size value) every first step and the second steps after first steps writing variable 0. "+
 		"After every step: (1) returned value Equal to and encoded as the receiver, (2) receiver encoding = reference execution of that step on fresh decode(encode(.)) copies, (3) every other variable's encoding unchanged. "+
 		"non-trivial = program whose last step's receiver is also an operand, or whose two steps touch a common variable; distinct by (group, program)",
 		[]string{"the reference step uses the same implementation operation on unaliased fresh objects (the property's own definition of the expected result)",
@@ -426,30 +463,68 @@ func probe(x *vf.Ctx, e *env, st *state, cur encs, prog string, o op) {
 	pk := "C05/" + e.g.Name + "/" + o.kind
 	K := e.decP(e.init.p[1])
 	one := e.g.Scalar().One()
+	// phase 1: every variable negated in place (an implementation may negate a coordinate inside storage it shares)
 	var want encs
 	for i := range st.p {
-		want.p[i] = fmod.Enc(e.g.Point().Add(e.decP(cur.p[i]), K))
+		want.p[i] = fmod.Enc(e.g.Point().Neg(e.decP(cur.p[i])))
 	}
 	for i := range st.s {
-		b, _ := e.g.Scalar().Add(e.decS(cur.s[i]), one).MarshalBinary()
+		b, _ := e.g.Scalar().Neg(e.decS(cur.s[i])).MarshalBinary()
 		want.s[i] = b
 	}
 	for i := range st.p {
-		st.p[i].Add(st.p[i], K)
+		st.p[i].Neg(st.p[i])
 	}
 	for i := range st.s {
-		st.s[i].Add(st.s[i], one)
+		st.s[i].Neg(st.s[i])
 	}
 	got := enc(st)
 	for i := range got.p {
 		if !bytes.Equal(got.p[i], want.p[i]) {
-			x.Failf(pk+"/latent-sharing", "after %s: writing every variable in place once (v.Add(v,K)) leaves p%d = %x.. instead of its old value + K = %x..: it shares storage with another variable", prog, i, hd(got.p[i]), hd(want.p[i]))
+			x.Failf(pk+"/latent-sharing", "after %s: negating every variable in place once (v.Neg(v)) leaves p%d = %x.. instead of the negation of its old value %x..: it shares storage with another variable", prog, i, hd(got.p[i]), hd(want.p[i]))
 			return
 		}
 	}
 	for i := range got.s {
 		if !bytes.Equal(got.s[i], want.s[i]) {
-			x.Failf(pk+"/latent-sharing", "after %s: writing every variable in place once leaves s%d different from its old value + 1: it shares storage with another variable", prog, i)
+			x.Failf(pk+"/latent-sharing", "after %s: negating every variable in place once leaves s%d different from the negation of its old value: it shares storage with another variable", prog, i)
+			return
+		}
+	}
+	// phase 2: every variable incremented in place, by another amount each ((i+1)K, i+1)
+	cur = want
+	incS := e.g.Scalar().Zero()
+	incP := e.g.Point().Null()
+	var incsS []kyber.Scalar
+	var incsP []kyber.Point
+	for i := 0; i < len(st.p) || i < len(st.s); i++ {
+		incS = e.g.Scalar().Add(incS, one)
+		incP = e.g.Point().Add(incP, K)
+		incsS, incsP = append(incsS, incS), append(incsP, incP)
+	}
+	for i := range st.p {
+		want.p[i] = fmod.Enc(e.g.Point().Add(e.decP(cur.p[i]), incsP[i]))
+	}
+	for i := range st.s {
+		b, _ := e.g.Scalar().Add(e.decS(cur.s[i]), incsS[i]).MarshalBinary()
+		want.s[i] = b
+	}
+	for i := range st.p {
+		st.p[i].Add(st.p[i], incsP[i])
+	}
+	for i := range st.s {
+		st.s[i].Add(st.s[i], incsS[i])
+	}
+	got = enc(st)
+	for i := range got.p {
+		if !bytes.Equal(got.p[i], want.p[i]) {
+			x.Failf(pk+"/latent-sharing", "after %s: writing every variable in place (v.Neg(v), then v.Add(v,(i+1)K)) leaves p%d = %x.. instead of %x..: it shares storage with another variable", prog, i, hd(got.p[i]), hd(want.p[i]))
+			return
+		}
+	}
+	for i := range got.s {
+		if !bytes.Equal(got.s[i], want.s[i]) {
+			x.Failf(pk+"/latent-sharing", "after %s: writing every variable in place (v.Neg(v), then v.Add(v,i+1)) leaves s%d different from -old+%d: it shares storage with another variable", prog, i, i+1)
 			return
 		}
 	}
@@ -507,7 +582,7 @@ func explore(c *vf.Check, e *env, m []op, i1 int, depth int, reduced bool) {
 	pk := "C05/" + g.Name + "/" + o1.kind
 	ok1 := false
 	var after1 encs
-	c.Case(g.Name+": "+o1.String(), pk, func(x *vf.Ctx) {
+	c.Case(e.label()+": "+o1.String(), pk, func(x *vf.Ctx) {
 		st := e.fresh()
 		after1, ok1 = step(x, e, st, e.init, o1, o1.String())
 		c.Eval(1)
@@ -518,7 +593,7 @@ func explore(c *vf.Check, e *env, m []op, i1 int, depth int, reduced bool) {
 	c.Count("states", 1)
 	c.Count("transitions", 1)
 	if aliased(o1) {
-		c.Nontrivial(g.Name + "|" + o1.String())
+		c.Nontrivial(e.label() + "|" + o1.String())
 	}
 	c.Class(g.Name+"/depth1", func() any { return o1.String() })
 	if !ok1 || depth < 2 {
@@ -534,7 +609,7 @@ func explore(c *vf.Check, e *env, m []op, i1 int, depth int, reduced bool) {
 		if !dependent(o1, o2) {
 			continue // o2 reads and writes nothing o1 touched: same as the depth-1 program o2
 		}
-		c.Case(g.Name+": "+prog, "C05/"+g.Name+"/"+o2.kind, func(x *vf.Ctx) {
+		c.Case(e.label()+": "+prog, "C05/"+g.Name+"/"+o2.kind, func(x *vf.Ctx) {
 			st := e.fresh()
 			e.apply(st, o1) // checked as a depth-1 program above; after1 is its reference result
 			after2, ok2 := step(x, e, st, after1, o2, prog)
@@ -554,7 +629,7 @@ func explore(c *vf.Check, e *env, m []op, i1 int, depth int, reduced bool) {
 			}
 		}
 		if nt {
-			c.Nontrivial(g.Name + "|" + prog)
+			c.Nontrivial(e.label() + "|" + prog)
 		}
 		if c.Expired() {
 			c.Cap(g.Name + ": deadline")
